@@ -180,15 +180,16 @@ static uint64_t gen_count(int mode, bool is_map) {
 static Case gen_case() {
     Case c;
     int mode = (int)weighted({42, 58});
-    unsigned profile = (unsigned)weighted({40, 22, 14, 24});
+    unsigned profile = (unsigned)weighted({38, 18, 14, 22, 8});
     c.cfg = {(uint64_t)mode, pick(0, 3), pick(0, 3), rnd_u64() & 0xFFFFFFFFull, pick(0, 4), profile};
-    // profile 0 balanced, 1 container-heavy (deep nesting), 2 string-heavy, 3 number-heavy
-    static const unsigned W[4][NKINDS] = {
+    // profile 0 balanced, 1 container-heavy, 2 string-heavy, 3 number-heavy, 4 almost only container/tag starts (deep nesting)
+    static const unsigned W[5][NKINDS] = {
         //  U   N   F  SF  BY  TX  AR  MP  TG  BO NUL UND IBY ITX IAR IMP BRK
         {12, 10, 16, 4, 8, 8, 8, 6, 6, 3, 2, 2, 2, 2, 4, 3, 6},
         {4, 3, 5, 1, 2, 2, 20, 12, 14, 1, 1, 1, 3, 3, 14, 10, 5},
         {3, 2, 3, 1, 30, 30, 4, 3, 3, 1, 1, 1, 5, 5, 2, 2, 6},
         {24, 20, 30, 8, 1, 1, 3, 2, 5, 1, 1, 1, 0, 0, 1, 1, 2},
+        {1, 0, 1, 0, 1, 0, 22, 12, 14, 0, 1, 0, 2, 2, 16, 12, 2},
     };
     c.ops = op_list(120, [mode, profile] {
         unsigned tot = 0;
